@@ -175,9 +175,36 @@ def nested_fold_calls(A, lazy, variant):
     return calls
 
 
+def text_calls(A, x):
+    """the same laws on a TEXT of digits with a one-digit needle (counting / membership treat the text as the
+    list of its characters; the needle may be given as a number)"""
+    import vyxal.elements as E
+    from vyxal.context import Context
+
+    digits = [abs(v) % 10 for v in A]
+    if not digits:
+        return []
+    text = "".join(map(str, digits))
+    d = abs(x) % 10
+    calls = []
+    for law, fn, needle in (("count", "count_item", d), ("count", "count_item", str(d)), ("contains", "contains", str(d)),
+                            ("length", "length", None), ("reverse", "reverse", None)):
+        ev = {"law": law, "a": digits, "b": [], "x": d, "out": {"i": 0}, "err": ""}
+        try:
+            r = getattr(E, fn)(text, needle, Context()) if needle is not None else getattr(E, fn)(text, Context())
+            if isinstance(r, str):
+                r = [int(c) for c in r]
+            ev["out"] = c08.tagged(r)
+        except Exception as e:  # noqa: BLE001
+            ev["err"] = type(e).__name__
+        calls.append(ev)
+    return calls
+
+
 def observe(case):
     A, B, x, lazy = case
     calls = []
+    calls += text_calls(A, x)
     calls += rows_calls(A, lazy, len(A) + x) + self_pair_calls(A, x) + nested_fold_calls(A, lazy, len(A) + x)
     for law, (fn, kind) in LAWS.items():
         if law in ("powerset", "permutations", "sublists") and len(A) > 5:
